@@ -136,7 +136,11 @@ def gen_history(rng, name, cap, n_msgs):
                 units.append(h + q + arg)
                 path = tuple(full[:-1])
 
-            if r < 0.1:
+            if r < 0.04:
+                # a string with line feeds inside: no event; the units before it must not run a second time when the message
+                # reaches `process` behind a complete one
+                root_unit(rng.choice(['NOTE "a\nb"', "NOTE 'x\n\ny'", 'NOTE "\n"']))
+            elif r < 0.1:
                 root_unit('OK')
             elif r < 0.18:
                 root_unit('VAL?'); events.append(('out', b'7\n'))
